@@ -40,23 +40,23 @@ const c06Rule = "transaction executed while one owner holds >=2 deployments whos
 func (o *cmC06) expectedSigner(msg sdk.Msg) (string, string) {
 	switch x := msg.(type) {
 	case *dtypes.MsgCreateDeployment:
-		return x.ID.Owner, "tenant"
+		return cmNormAddr(x.ID.Owner), "tenant"
 	case *dtypes.MsgDepositDeployment:
-		return x.ID.Owner, "tenant"
+		return cmNormAddr(x.ID.Owner), "tenant"
 	case *dtypes.MsgUpdateDeployment:
-		return x.ID.Owner, "tenant"
+		return cmNormAddr(x.ID.Owner), "tenant"
 	case *dtypes.MsgCloseDeployment:
-		return x.ID.Owner, "tenant"
+		return cmNormAddr(x.ID.Owner), "tenant"
 	case *dtypes.MsgCloseGroup:
-		return x.ID.Owner, "tenant"
+		return cmNormAddr(x.ID.Owner), "tenant"
 	case *dtypes.MsgPauseGroup:
-		return x.ID.Owner, "tenant"
+		return cmNormAddr(x.ID.Owner), "tenant"
 	case *dtypes.MsgStartGroup:
-		return x.ID.Owner, "tenant"
+		return cmNormAddr(x.ID.Owner), "tenant"
 	case *mtypes.MsgCreateLease:
-		return x.BidID.Owner, "tenant"
+		return cmNormAddr(x.BidID.Owner), "tenant"
 	case *mtypes.MsgCloseLease:
-		return x.LeaseID.Owner, "tenant"
+		return cmNormAddr(x.LeaseID.Owner), "tenant"
 	case *mtypes.MsgCreateBid:
 		return cmNormAddr(x.Provider), "provider"
 	case *mtypes.MsgCloseBid:
